@@ -122,7 +122,7 @@ def opChain : Op → Nat
   | .sendV2 c _ _ _ _ _ => c
   | .recv p => p.dstChain
   | .ack p _ => p.srcChain
-  | .timeout p => p.srcChain
+  | .timeout p _ => p.srcChain
   | .setParams c _ _ => c
   | .bankSend c _ _ _ _ => c
 
@@ -160,7 +160,7 @@ theorem step_other_chain (cfg : Config) (w : World) (op : Op) (c : Nat) (hc : c 
     split
     · simp [World.setChain, hc]
     · rfl
-  | timeout p =>
+  | timeout p oc =>
     simp only [step, opChain] at hc ⊢
     split
     · simp [World.setChain, hc]
@@ -267,10 +267,10 @@ theorem step_ack_cases (cfg : Config) (w : World) (p : Packet) (a : Ack) :
     right; refine ⟨rfl, ?_⟩
     cases f <;> simp [failRes]
 
-theorem step_timeout_cases (cfg : Config) (w : World) (p : Packet) :
+theorem step_timeout_cases (cfg : Config) (w : World) (p : Packet) (oc : Bool) :
     (∃ ch', timeoutPacket cfg p.srcChain (w.chains p.srcChain) p = .ok ch' ∧
-       step cfg w (.timeout p) = ({ w.setChain p.srcChain ch' with timedOut := p :: w.timedOut }, .ok)) ∨
-    ((step cfg w (.timeout p)).1 = w ∧ (step cfg w (.timeout p)).2 ≠ .ok) := by
+       step cfg w (.timeout p oc) = ({ w.setChain p.srcChain ch' with timedOut := p :: w.timedOut }, .ok)) ∨
+    ((step cfg w (.timeout p oc)).1 = w ∧ (step cfg w (.timeout p oc)).2 ≠ .ok) := by
   simp only [step]
   split
   · rename_i ch' h
